@@ -5,7 +5,7 @@ from hypothesis import strategies as st
 from ..core import Clause, Discard, Violation, call, require
 from ..oracles import stft_ref
 from ..strategies import (bank_specs, build_bank, build_si, build_stft, floats, gabor_degenerate,
-                          gammatone_degenerate, make_signal, si_specs, signal_specs, stft_specs)
+                          gammatone_degenerate, make_signal, si_specs, signal_specs, stft_specs, SIGNAL_KINDS)
 
 PROPERTY = "C14"
 LEVEL = "exploration"
@@ -99,8 +99,9 @@ def check_stft(case):
     if ref.shape[0]:
         win = np.asarray(comp._window, dtype=np.float64) if hasattr(comp, "_window") else np.ones(L)
         D = stft_ref.documented_dft_size(L, spec["pad"])
-        nat = stft_ref.natural_scale(x.astype(np.float64), win, L, S, D, style, kal, spec["use_power"])
-        msg = stft_ref.compare_features(got, ref, spec["use_log"], rtol=rtol, atol_frac=afrac, natural=nat)
+        # every frame is judged at its own level (each frame is transformed on its own in both implementations)
+        nat = stft_ref.natural_rows(x.astype(np.float64), win, L, S, D, style, kal, spec["use_power"])
+        msg = stft_ref.compare_features_per_frame(got, ref, spec["use_log"], nat, energy_col=spec["include_energy"], rtol=rtol, afrac=afrac)
         require(msg is None, "N={} L={} S={} D={} style={} kaldi={} {}: torch vs numpy: {}", N, L, S, D, style, spec["kaldi_shift"], prec, msg)
     labels = ["prec=" + prec, "style=" + style, "bank=" + spec["bank"]["alias"], "D%4=" + str(stft_ref.documented_dft_size(L, spec["pad"]) % 4)]
     if ref.shape[0] == 0:
@@ -190,6 +191,8 @@ def check_si(case):
     if gabor_degenerate(spec["bank"], _thr()) or gammatone_degenerate(spec["bank"], _thr()):
         raise Discard()
     bank = call("bank constructor", build_bank, spec["bank"])
+    if max(int(r) - int(l) for l, r in bank.supports) > 1200:
+        raise Discard()  # cost bound: filters thousands of samples long make each wrapper call take seconds
     comp = call("SI constructor", build_si, spec, bank)
     comp2 = build_si(spec, bank)
     dt = np.float64 if case["prec"] == "double" else np.float32
@@ -254,18 +257,21 @@ def _stft_cases(draw):
     comp = draw(stft_specs(max_len=48))
     L = comp["L"]
     n = draw(st.one_of(st.integers(L, 5 * L + 3), st.integers(0, L // 2), st.sampled_from([L, L + 1, 2 * L, 0, L // 2])))
-    if draw(st.integers(0, 24)) == 0:
-        n = draw(st.sampled_from([4097, 10000, 16385]))
+    if draw(st.integers(0, 11)) == 0:
+        n = min(draw(st.sampled_from([4097, 10000, 16385])), 2000 * comp["S"] + 97)  # (at most ~2000 frames: the NumPy reference loops over frames)
     elif draw(st.integers(0, 3)) == 0:
-        # lengths on and next to the boundaries of the frame count: whole and half multiples of the shift
+        # lengths on and next to the boundaries of the frame count: whole and half multiples of the shift, at or above
+        # one frame length, for even and odd multiples (a tie in N / S rounds differently under different rounding rules)
         S = comp["S"]
-        n = max(L, draw(st.integers(0, 12)) * S + draw(st.sampled_from([0, S // 2, (S + 1) // 2])) + draw(st.sampled_from([-1, 0, 0, 1])))
+        kmin = max(0, -(-(L - S // 2) // S))
+        n = max(L, (kmin + draw(st.integers(0, 5))) * S + draw(st.sampled_from([S // 2, S // 2, (S + 1) // 2, 0])) + draw(st.sampled_from([0, 0, 0, -1, 1])))
     return {
         "prior_n": draw(st.one_of(st.none(), st.none(), st.integers(0, 4 * L))),
         "strided": draw(st.sampled_from([False, False, False, True])),
         "comp": comp,
-        "sig": draw(signal_specs(st.just(n))),
-        "prec": draw(st.sampled_from(["double", "double", "single", "default"])),
+        # (a large dynamic range over time is where a single-precision running sum differs from per-frame sums)
+        "sig": draw(signal_specs(st.just(n), SIGNAL_KINDS + ["loud_quiet", "loud_quiet"])),
+        "prec": draw(st.sampled_from(["double", "single", "single", "default"])),
         "script": draw(st.sampled_from([False] * 9 + [True])),
     }
 
@@ -279,7 +285,7 @@ def clauses(tier):
     return [
         Clause("stft_module", check_stft,
                "non-trivial = complex bank, include_energy or empty output; every 10th case is also TorchScript-compiled",
-               _stft_cases, quick=450, thorough=15000),
+               _stft_cases, quick=1000, thorough=20000),
         Clause("preemphasize", check_preemph,
                "PyTorchPreemphasize vs Preemphasize.apply; non-trivial = >= 2 samples",
                lambda: st.fixed_dictionaries({"sig": signal_specs(st.one_of(st.integers(0, 64), st.integers(0, 64), st.integers(65, 5000),
